@@ -684,7 +684,7 @@ impl<'tcx> Extractor<'tcx> {
                 }
                 // named constant (`const MAX: usize = 64;`): evaluate it when it is a local, non-generic scalar
                 let mut evaluated = "null".to_string();
-                if uv.promoted.is_none() && uv.def.is_local() && uv.args.is_empty() {
+                if uv.promoted.is_none() && uv.args.is_empty() {
                     if let Ok(cv) = tcx.const_eval_poly(uv.def) {
                         if let Some(j) = self.constval_json(&cv, ty) {
                             evaluated = j;
